@@ -17,6 +17,9 @@ func runC02(c *core.Ctx) {
 	}
 	// the check compares against the cached last index/term: the cache follows every log mutation
 	h.storageCacheCoherence("C02.1b storage-cache")
+	// a vote counts only in the election it was cast in (otherwise a node becomes leader without the quorum that ran the up-to-date check)
+	h.leaderOnlyByMajority("C02.1c votes-of-this-election")
+	h.candidateReleaseRetiresChannel("C02.1d stale-replies-not-counted")
 	c.Clause("C02.2 leader commit rule: only onMajorityCommit, value of majorityMatchIndex, v>commitIndex && v>=startIndex, startIndex=lastLogIndex+1 taken before the no-op")
 	h.leaderCommitRule("C02.2 leader-commit")
 	c.Clause("C02.3 majority computed over voters of the latest configuration; quorum element of the descending order; single-voter shortcut guarded")
